@@ -17,6 +17,9 @@ pub fn run(case: &Value, em: &mut Emitter) {
     let nslots = case["nslots"].as_u64().unwrap_or(3);
     let mut ids: Vec<u64> = (0..nslots + 2).collect();
     ids.push(2147483647);          // stand-in: an id far beyond any table (the call uses usize::MAX / 8 + 1, 1 << 61, usize::MAX in turn)
+    // TLC-enumerated bundles carry no session: a fixed one (next, nth(1), size_hint, then every second module)
+    let steps: Vec<Value> = case.get("steps").and_then(|s| s.as_array().cloned()).unwrap_or_else(||
+        vec![json!({"op": "next", "n": 0}), json!({"op": "nth", "n": 1}), json!({"op": "hint", "n": 0}), json!({"op": "step_by", "n": 2})]);
     let out = guard(|| {
         let is = is_ram_bundle_slice(&bytes);
         match RamBundle::parse_indexed_from_slice(&bytes) {
@@ -50,11 +53,19 @@ pub fn run(case: &Value, em: &mut Emitter) {
                     }
                     if iter.len() >= 256 { break; }
                 }
-                json!({"k": "ok", "is": is, "count": num(count.min(u32::MAX as usize) as u32), "startup": startup, "gets": gets, "iter": iter})
+                // one cursor session on the module iterator (small tables only); an item is (id, data) or an error
+                let sess = if count <= 256 {
+                    let it = b.iter_modules().map(|item| match item {
+                        Ok(m) => json!({"id": m.id(), "r": {"k": "ok", "v": m.data().to_vec()}}),
+                        Err(_) => json!({"id": -1, "r": {"k": "err", "v": []}}),
+                    });
+                    json!([crate::e05::session(Box::new(it), count + 2, &steps)])
+                } else { json!([]) };
+                json!({"k": "ok", "is": is, "count": num(count.min(u32::MAX as usize) as u32), "startup": startup, "gets": gets, "iter": iter, "sess": sess})
             }
         }
     });
-    em.emit("bundle", json!({"bytes": case["bytes"], "ids": ids}), out);
+    em.emit("bundle", json!({"bytes": case["bytes"], "ids": ids, "steps": steps}), out);
 }
 
 fn le(n: u32) -> [u8; 4] { n.to_le_bytes() }
@@ -84,8 +95,13 @@ pub fn gen(rng: &mut Rng, size: usize) -> Value {
     // ... and corruptions of it
     let total = b.len() as u32;
     let nfields = 2 + 2 * nslots;
-    match rng.below(8) {
+    match rng.below(9) {
         0 | 1 => {}
+        8 => {
+            // a 32-bit field (the magic included) written in the other byte order
+            let f = rng.below(nfields as u64 + 1) as usize;
+            b[4 * f..4 * f + 4].reverse();
+        }
         2 => { let n = rng.below(b.len() as u64) as usize; b.truncate(n); }
         3 | 4 | 5 => {
             let f = rng.below(nfields as u64) as usize;
@@ -100,5 +116,5 @@ pub fn gen(rng: &mut Rng, size: usize) -> Value {
         6 => { let k = rng.below(4) as usize; b[k] = b[k].wrapping_add(1 + rng.below(255) as u8); }
         _ => { for _ in 0..1 + rng.below(4) { let k = rng.below(b.len() as u64) as usize; b[k] = rng.below(256) as u8; } }
     }
-    json!({"op": "bundle", "bytes": b, "nslots": nslots.min(150)})
+    json!({"op": "bundle", "bytes": b, "nslots": nslots.min(150), "steps": crate::c04::gen_steps(rng, nslots.min(8))})
 }
